@@ -4,11 +4,14 @@ package main
 //
 // Foreign and repeated keys are inserted into every covered section as
 //   &c13n key: v        (anchor)            !!str key: v     (explicit tag)      &c13n !!str key: v
+//   !!str &c13n key: v  !c13t &c13n key: v  (tag first)      !<tag:yaml.org,2002:str> key: v   ! key: v
 //   'key': v  "key": v  (quoted)            ? key NEWLINE : v (explicit key)
 //   *c13a : v           (alias of a scalar that carries the anchor elsewhere, or of the anchored original key)
 //   <<: *c13a           (merge key; a key outside every fixed key set)
 //   key: *c13a          (plain key, value written as an alias)
-// and, in template K, into one-line flow mappings `{a: 1, b: 2}`.
+// and, in template K, into one-line flow mappings `{a: 1, b: 2}`. Mappings that end at the end of the
+// file additionally get every form as their last key with the file rewritten without a final line break
+// (LF and CRLF), so that the mutated key is on the very last line.
 // Oracle: the property's — a report located on the offending key (inside the key token, behind its
 // properties), for a repetition worded as one, and all diagnostics of the siblings survive. For a key
 // written as an alias only "some diagnostic located at that key" is demanded.
@@ -150,7 +153,8 @@ func (b *c13Base) c13AnchorAt(line, col int, tag string) *c13Base {
 	return nb
 }
 
-var c13KeyForms = []string{c13FormAnchor, c13FormTag, c13FormAnchorTag, c13FormSingle, c13FormDouble, c13FormExplicit}
+var c13KeyForms = []string{c13FormAnchor, c13FormTag, c13FormAnchorTag, c13FormTagAnchor, c13FormLocalTagAnchor, c13FormVerbatimTag, c13FormNonSpecificTag,
+	c13FormSingle, c13FormDouble, c13FormExplicit}
 
 // c13FormsNode applies the key-form mutations to mapping node ni of base b.
 // level 0: one position / one key per form, level 1: every position / every key.
@@ -231,7 +235,8 @@ func c13FormsNode(c *Case, b *c13Base, ni int, level int, pool []string) {
 	}
 
 	// --- forms that need the anchor c13a on a scalar elsewhere in the document
-	if b2, anchorLine := b.c13WithValueAnchor(); b2 != nil {
+	b2, anchorLine := b.c13WithValueAnchor()
+	if b2 != nil {
 		c.Eval(1)
 		mn2 := &b2.Nodes[ni]
 		m2 := c13At(b2.Doc, mn2.Idx)
@@ -290,10 +295,74 @@ func c13FormsNode(c *Case, b *c13Base, ni int, level int, pool []string) {
 			}
 		}
 	}
+
+	// --- file layout: the mutated key on the very last line of a file without final line break (LF / CRLF)
+	if !flow && b.c13EndsAtEOF(m) {
+		lays := func() []string {
+			if level == 0 {
+				return []string{c13Layouts[c.R.Intn(len(c13Layouts))]}
+			}
+			return c13Layouts
+		}
+		os := origs()
+		oi := os[c.R.Intn(len(os))]
+		for _, form := range append([]string{c13FormPlain}, c13KeyForms...) {
+			vk := c13ValScalar
+			if form == c13FormExplicit {
+				vk = c13ValNull // `? key` alone, so that the key is on the last line
+			}
+			if !sec.Free {
+				for _, lay := range lays() {
+					c13Apply(c, b, mn, c13Op{Kind: "foreign", Pos: n, Key: foreignName(), ValKind: vk, Form: form, Layout: lay}, true, nil)
+				}
+			}
+			for _, lay := range lays() {
+				c13Apply(c, b, mn, c13Op{Kind: "dup", Pos: n, Key: keys[oi], ValKind: vk, Orig: oi, Form: form, Layout: lay}, true, nil)
+			}
+		}
+		if b2 != nil && anchorLine <= b2.c13EndLine(m.Content[0].Column, m.Content[2*(n-1)].Line) {
+			mn2 := &b2.Nodes[ni]
+			for _, lay := range lays() {
+				c13Apply(c, b2, mn2, c13Op{Kind: "foreign", Pos: n, Key: "*" + c13AnchorName, ValKind: c13ValScalar, Form: c13FormAlias, Layout: lay}, true, nil)
+			}
+			if !sec.Free {
+				for _, lay := range lays() {
+					c13Apply(c, b2, mn2, c13Op{Kind: "foreign", Pos: n, Key: "<<", ValKind: c13ValAlias, Form: c13FormMerge, Layout: lay}, true, nil)
+				}
+				for _, lay := range lays() {
+					c13Apply(c, b2, mn2, c13Op{Kind: "foreign", Pos: n, Key: foreignName(), ValKind: c13ValAlias, Layout: lay}, true, nil)
+				}
+			}
+			for _, lay := range lays() {
+				c13Apply(c, b2, mn2, c13Op{Kind: "dup", Pos: n, Key: keys[oi], ValKind: c13ValAlias, Orig: oi, Layout: lay}, true, nil)
+			}
+		}
+		if k := m.Content[2*oi]; k.Anchor == "" && k.Style&yaml.TaggedStyle == 0 && k.Line <= len(b.Lines) {
+			if b3 := b.c13AnchorAt(k.Line, k.Column, "+key-anchor"); b3 != nil {
+				c.Eval(1)
+				for _, lay := range lays() {
+					c13Apply(c, b3, &b3.Nodes[ni], c13Op{Kind: "dup", Pos: n, Key: "*" + c13AnchorName, ValKind: c13ValScalar, Orig: oi, Form: c13FormAlias, Layout: lay}, true, nil)
+				}
+			}
+		}
+	}
 }
 
 // c13FormsFloors: every key form was judged in every section group, as a foreign key and as a repetition.
 func c13FormsFloors(r *Run) {
+	lforms := append(append([]string{"plain"}, c13KeyForms...), c13FormAlias, c13FormMerge, "alias-value")
+	for _, f := range lforms {
+		for _, l := range c13Layouts {
+			for _, k := range []string{"unknown-key", "duplicate-key"} {
+				if f == c13FormMerge && k == "duplicate-key" {
+					continue
+				}
+				if !r.SetHas("layouts_covered", f+":"+l+":"+k) {
+					r.Inconclusive(fmt.Sprintf("file layouts: no %s written as %q was judged on the last line of a file with layout %s", k, f, l))
+				}
+			}
+		}
+	}
 	forms := append(append([]string{}, c13KeyForms...), c13FormAlias, c13FormMerge, "alias-value", "flow")
 	for _, f := range forms {
 		for _, g := range c13Groups {
